@@ -11,6 +11,7 @@ package c09
 // C09 sub-checks.
 
 import (
+	"bufio"
 	"bytes"
 	"encoding/hex"
 	"fmt"
@@ -54,28 +55,84 @@ func isReaderEntry(entry string) bool {
 	return false
 }
 
+// countingAt counts what an io.ReaderAt hands over.
+type countingAt struct {
+	r *bytes.Reader
+	n int64
+}
+
+func (c *countingAt) ReadAt(p []byte, off int64) (int, error) {
+	n, err := c.r.ReadAt(p, off)
+	c.n += int64(n)
+	return n, err
+}
+
+// lyingLen is a reader whose Len() has nothing to do with what it holds.
+type lyingLen struct {
+	io.Reader
+	claim int
+}
+
+func (l lyingLen) Len() int { return l.claim }
+
+// lyingSize is a reader with a Size() method (like io.SectionReader) that overstates.
+type lyingSize struct {
+	io.Reader
+	claim int64
+}
+
+func (l lyingSize) Size() int64 { return l.claim }
+
+// readerKinds: the dynamic type of the reader is an axis of its own (append only).
+var readerKinds = []string{"bytes.Reader", "bytes.Buffer", "strings.Reader", "nolen", "onebyte",
+	"bufio", "section-overstated", "section-exact", "lying-len", "lying-len-negative", "lying-size", "limit", "multi", "half", "dataerr"}
+
 // runReader is run() of c09_test.go for the reader-based entry points with a
-// chosen kind of reader; bytes delivered = what the reader no longer holds.
+// chosen kind of reader; bytes delivered = what the source has handed over.
 func runReader(entry, kind string, data []byte, meter func() uint64) (outcome, uint64) {
 	var out outcome
 	var r io.Reader
-	var left func() int64
+	var delivered func() int64
+	src := bytes.NewReader(data)
+	cnt := &countingReader{r: src}
+	viaCnt := func() int64 { return cnt.n }
 	switch kind {
 	case "bytes.Buffer":
 		b := bytes.NewBuffer(append([]byte{}, data...))
-		r, left = b, func() int64 { return int64(b.Len()) }
+		r, delivered = b, func() int64 { return int64(len(data) - b.Len()) }
 	case "strings.Reader":
 		s := strings.NewReader(string(data))
-		r, left = s, func() int64 { return int64(s.Len()) }
+		r, delivered = s, func() int64 { return int64(len(data) - s.Len()) }
 	case "nolen":
-		b := bytes.NewReader(data)
-		r, left = &countingReader{r: b}, func() int64 { return int64(b.Len()) }
+		r, delivered = cnt, viaCnt
 	case "onebyte":
-		b := bytes.NewReader(data)
-		r, left = iotest.OneByteReader(b), func() int64 { return int64(b.Len()) }
+		r, delivered = iotest.OneByteReader(cnt), viaCnt
+	case "half":
+		r, delivered = iotest.HalfReader(cnt), viaCnt
+	case "dataerr":
+		r, delivered = iotest.DataErrReader(cnt), viaCnt
+	case "bufio":
+		r, delivered = bufio.NewReaderSize(cnt, 16), viaCnt // may read ahead: delivered is what it pulled from the source
+	case "limit":
+		r, delivered = io.LimitReader(cnt, 1<<62), viaCnt
+	case "multi":
+		a, b := &countingReader{r: bytes.NewReader(data[:len(data)/2])}, &countingReader{r: bytes.NewReader(data[len(data)/2:])}
+		r, delivered = io.MultiReader(a, b), func() int64 { return a.n + b.n }
+	case "section-overstated", "section-exact":
+		at := &countingAt{r: src}
+		size := int64(len(data))
+		if kind == "section-overstated" {
+			size = 1 << 62 // a section declared over a file that turns out to be shorter
+		}
+		r, delivered = io.NewSectionReader(at, 0, size), func() int64 { return at.n }
+	case "lying-len":
+		r, delivered = lyingLen{cnt, 1 << 40}, viaCnt
+	case "lying-len-negative":
+		r, delivered = lyingLen{cnt, -1}, viaCnt
+	case "lying-size":
+		r, delivered = lyingSize{cnt, 1 << 40}, viaCnt
 	default:
-		b := bytes.NewReader(data)
-		r, left = b, func() int64 { return int64(b.Len()) }
+		r, delivered = src, func() int64 { return int64(len(data) - src.Len()) }
 	}
 	var call func()
 	switch entry {
@@ -104,7 +161,7 @@ func runReader(entry, kind string, data []byte, meter func() uint64) (outcome, u
 	a0 := meter()
 	call()
 	a1 := meter()
-	out.delivered = int64(len(data)) - left()
+	out.delivered = delivered()
 	return out, a1 - a0
 }
 
@@ -131,7 +188,7 @@ func checkWrap(ctx *pbt.Ctx, c Wrap) error {
 	}
 	kind := c.Reader
 	ok := false
-	for _, k := range wrapReaders {
+	for _, k := range readerKinds {
 		ok = ok || k == kind
 	}
 	if !ok {
@@ -207,7 +264,7 @@ func TestWrapClaims(t *testing.T) {
 			keep := rapid.SampledFrom([]int{0, 2, 25, 41, 64, 600, 600, 2000, -1}).Draw(t, "keep")
 			c := Wrap{Entry: entry, Data: padded(e, s, claim, keep), Note: fmt.Sprintf("site %d of %d announces %d*ceil(2^%d/%d)%+d = %d, keep %d", s, len(e.sites), j, pow, m, d, claim, keep)}
 			if isReaderEntry(entry) {
-				c.Reader = rapid.SampledFrom(wrapReaders).Draw(t, "reader")
+				c.Reader = rapid.SampledFrom(readerKinds).Draw(t, "reader")
 			}
 			return c
 		},
